@@ -251,6 +251,10 @@ def feed_species(index, rep):
             if isinstance(res, Abort):
                 continue
             out, grass, feed, obj = res
+            if isinstance(out, tuple) and len(out) == 2 and any(not isinstance(o_, Obj) for o_ in out):
+                # what is handed back went through an object or call this evaluation does not follow: no verdict either way
+                raise AnalysisError("feed_the_species outside the analysed fragment: the stocks handed back are read off an object this "
+                                    "evaluation does not follow (" + ", ".join(type(o_).__name__ for o_ in out) + ")")
             zeros, infeasible = zero_atoms(it, dec, [g, f, R, pop], pos_factors)
             if infeasible:
                 continue  # the guards of this leaf contradict the non-negativity of an input
@@ -377,6 +381,14 @@ def prio(index, rep):
         passes = _ev(ev, "pass-begin")
         resets = _ev(ev, "elem-call", "reset_NE_balance")
         feeds = _ev(ev, "elem-call", "feed_the_species")
+        if not feeds:
+            known = {"reset_NE_balance", "feed_the_species"}
+            species_methods = set(index.methods(ANIM, "AnimalSpecies"))
+            other = sorted({e_.name for e_ in _ev(ev, "elem-call") if e_.name not in known and e_.name in species_methods})
+            if other:
+                # the feeding goes through a method of the species that this rule was not written for: no verdict either way
+                raise AnalysisError("feed_animals outside the analysed fragment: the feeding pass calls AnimalSpecies." + ", ".join(other)
+                                    + " instead of feed_the_species")
         ok = len(passes) == 2 and all(p.name == fn.args.args[a_l].arg for p in passes) and len(resets) == 2 and len(feeds) == 2 and \
             max(ev.index(r) for r in resets) < min(ev.index(f) for f in feeds)
         ov.leaf("two passes over the list in its order; balances reset before feeding", ok,
